@@ -200,13 +200,17 @@ Print Assumptions c20_source_threshold_as_modelled.
 
 (** The structure of doFallback that the model transcribes, as tools/gofacts
     finds it in the source: statement orders, channel capacity, collection
-    rounds, and the cases of the secondary's two selects. *)
+    rounds, the cases of the secondary's two selects, and the duration the
+    threshold timer is armed with (the configured field itself: the threshold
+    counts from the moment the plugin is entered, whatever the age of the
+    query context). *)
 From Coq Require Import String.
 Example c20_source_shape_as_modelled :
   fallback_send_before_done = true /\ fallback_fail_close_before_send = true
   /\ fallback_chan_cap = 2 /\ fallback_collect_rounds = 2
   /\ fallback_wait_cases = ["primDone return"; "primFailed"; "timer.C"]%string
   /\ fallback_hold_cases = ["ctx.Done()"; "primDone"; "primFailed"; "timer.C"]%string
+  /\ fallback_timer_arg = "f.fastFallbackDuration"%string
   /\ fallback_standby_field_from = "args.AlwaysStandby"%string
   /\ fallback_default_threshold = 500000000%Z.
 Proof. repeat split. Qed.
